@@ -19,6 +19,7 @@ D2_STREAM_SIG = 'stream-split-between-handlers:second-session-request'
 D3_SIG = 'protocol-error-after-local-close:partial-character'
 D4_SIG = 'tunnel-stalled:stripped-header-not-returned-to-window'
 D5_SIG = 'tunnel-packet-cut-at-window-edge'
+CLOSE_STUCK_SIG = 'close-never-sent:dropped-data-not-credited'
 
 
 def _zero_pktsize(case: Dict[str, Any]) -> bool:
@@ -418,6 +419,19 @@ def check_c08(case: Dict[str, Any], res: Dict[str, Any]) -> List[Failure]:
     closed = app_closed(case, res['results'])
     for i in range(len(chans)):
         for x, y in (('a', 'b'), ('b', 'a')):
+            # an application that called close() gets its CLOSE out: whatever it still had to send needs window from
+            # the peer, and the peer gives window back for all it receives — delivered to a reader that reads, or
+            # (its application closed too) dropped / discarded and credited
+            if closed.get((x, i)) and not any(c == i and m == 'C' for c, m, _k in res['wire'][x]) and \
+                    (chans[i]['pa'] if y == 'a' else chans[i]['pb']) != 0 and not case.get('effective_zero'):
+                both = bool(closed.get((y, i)))
+                fails.append(Failure(CLOSE_STUCK_SIG if both else 'close-never-sent',
+                                     f'channel {i}: the application at side {x} called close() with data still to '
+                                     f'send; everything in flight was delivered, every reader reads, yet its CLOSE was '
+                                     f'never sent: its send window is exhausted and is not replenished' +
+                                     (f' — side {y} has closed as well and drops what it receives WITHOUT giving the '
+                                      f'window back (both ends wait for each other for ever)' if both else ''),
+                                     {'case': case, 'channel': i}))
             if closed.get((y, i)):
                 continue
             if (chans[i]['pa'] if y == 'a' else chans[i]['pb']) == 0 or case.get('effective_zero'):
